@@ -24,7 +24,8 @@ INFO = {
     'bounds': {'quick': {'mapping': 'N=2 events, 2x3 grid, 11 position classes per event, '
                          'fraction from a table', 'cut': 'N=2 events, 2x2 grid, real densities '
                          'and fraction; two of five smoothing-width forms per assignment job'},
-               'thorough': {'cut': 'N=3, all five smoothing-width forms per job'}},
+               'thorough': {'cut': 'N=2 with all five smoothing-width forms per job; every multiset '
+                                   'of N=3 events with two forms per job; permuted events'}},
     'outside': ['FP rounding of f*n before ceil', 'contour geometry (skimage)', 'sample-derived '
                 'bins (C19)', 'grids larger than 2x3', 'smoothing itself (scipy)'],
     'stubs': ['scipy.ndimage gaussian_filter: arbitrary non-negative value per bin, same values '
@@ -454,26 +455,32 @@ def conditions(tier):
         for as_sample in ((False,) if q else (False, True)):
             cs.append(Cond('mapping_f%d%s' % (fi, '_sample' if as_sample else ''),
                            make=make_mapping(fi, as_sample), replay=std_replay(body_mapping),
-                           timeout=600, modules=mods,
+                           timeout=900, modules=mods,
                            doc='2x3 grid (nx != ny), 2 events over 13 position classes (interior, '
                                'right/top edge, corner, inner edge, outside), f=%s: mask[i] <=> '
                                'in-grid and bin_mask[true bin]; gated == data[mask]' % FTABLE[fi]))
     cs.append(Cond('mapping_f2_sample', make=make_mapping(2, True), replay=std_replay(body_mapping),
-                   timeout=600, modules=mods, doc='same on a sample with channels by name'))
-    N = 2 if q else 3
-    for j, assign in enumerate(itertools.product(range(5), repeat=N)):
+                   timeout=1000, modules=mods, doc='same on a sample with channels by name'))
+    # quick: every assignment of N=2 events, two of the five smoothing-width forms per job (the
+    # width is only handed through to the filter, so the product with the assignment adds
+    # paths, not coverage).  thorough: the same N=2 assignments with all five forms, plus every
+    # multiset of N=3 events (event order is covered by the permutation check) with two forms.
+    plans = []
+    for j, assign in enumerate(itertools.product(range(5), repeat=2)):
+        plans.append((assign, (j % 5, (j + 2) % 5) if q else (0, 1, 2, 3, 4)))
+    if not q:
+        for j, assign in enumerate(itertools.combinations_with_replacement(range(5), 3)):
+            plans.append((assign, (j % 5, (j + 2) % 5)))
+    for assign, sis in plans:
         if sum(1 for a in assign if a != 4) == 0:
             continue
-        # quick: two of the five smoothing-width forms per job (each form in ~10 jobs; the width
-        # is only handed through to the filter, so the product with the assignment adds paths,
-        # not coverage); thorough: all five in every job
-        sis = (j % 5, (j + 2) % 5) if q else (0, 1, 2, 3, 4)
         cs.append(Cond('cut_' + ''.join(map(str, assign)), make=make_cut(assign, not q, sis),
-                       replay=std_replay(body_cut), timeout=400 if q else 1200, modules=mods,
+                       replay=std_replay(body_cut), timeout=700 if q else 2400, modules=mods,
                        doc='events in bins %s (4 = outside) of a 2x2 grid, symbolic densities and '
                            'fraction, smoothing width forms %s: atomic bins, outside never kept, '
                            'kept >= f*n, minimal, density order, f=0/1, re-gating reproduces the '
-                           'mask, short == full' % (assign, [SIGMAS[i] for i in sis])))
+                           'mask, short == full%s' % (assign, [SIGMAS[i] for i in sis],
+                                                      '' if q else ', permuted events')))
     for assign in ((0, 1), (0, 3), (1, 1), (2, 4)) if q else \
             [a for a in itertools.product(range(5), repeat=2) if a != (4, 4)]:
         cs.append(Cond('monotone_' + ''.join(map(str, assign)), make=make_monotone(assign),
